@@ -1,5 +1,153 @@
-From Coq Require Import List NArith.
-From SopVerif Require Import EC Corr.C25.
+(* C25 — erasure-coded blobs survive up to p damaged shards; reads never crash the process; excess damage gives
+   an error, not wrong bytes; a write succeeds iff at most p shard writes fail.
+
+   The theorems are about the model EC.v of the code AS REPAIRED by fixes/C25-ec-damaged-shards.patch
+   (getOne / decode / add), for every d >= 1, p, blob size >= 1 and every state of the d+p shard files.
+   Reed–Solomon and md5 are parameters: `rs_contract` (EC.v) is the library contract the theorems assume,
+   `md5_detects` says no damaged shard on the disk passes its own checksum.
+   Corr.C25 is imported so that the correspondence checker is part of this file's build cone. *)
+From Coq Require Import List NArith Bool Arith Lia.
+From SopVerif Require Import EC ECProofs Corr.C25.
 Import ListNotations.
-Example C25_placeholder : class_of 2 9 (fst (c_getOne 2 1 9 false (repeat (good_file 2 9 c_md5) 3))) = 0%N.
-Proof. vm_compute. reflexivity. Qed.
+
+Section C25.
+  Variables (d p : nat) (size : N) (md5 : sdata -> N).
+  Variable rs_verify : list (option sdata) -> bool.
+  Variable rs_reconstruct : list (option sdata) -> option (list (option sdata)).
+  Hypothesis Hd : 1 <= d.
+  Hypothesis Hsize : (1 <= size)%N.
+  Hypothesis rs_ok : rs_contract d p rs_verify rs_reconstruct.
+  Notation getOne := (getOne d size md5 rs_verify rs_reconstruct).
+
+  (* READ, within parity. At most p of the d+p shard files damaged in any way (missing, any truncation, content,
+     checksum or pad-count bytes altered, in any combination): GetOne returns exactly the stored blob.
+     _partial: the pad count of the first readable shard must be intact (refuted without: C25_read_refuted). *)
+  Theorem C25_read_partial : forall repairOn wfail disk,
+    length disk = d + p -> damaged d size md5 disk <= p -> md5_detects md5 disk ->
+    first_pad_intact d size disk ->
+    fst (getOne repairOn wfail disk) = Ok (original d size).
+  Proof. intros rep wf disk Hl Hdm Hm Hp. exact (read_ok d p size md5 rs_verify rs_reconstruct Hd Hsize rs_ok rep wf disk Hl Hdm Hm Hp). Qed.
+
+  (* NO PANIC: whatever is on the disk (any number of files, any lengths, any bytes) *)
+  Theorem C25_no_panic : forall repairOn wfail disk, fst (getOne repairOn wfail disk) <> Panic.
+  Proof. intros rep wf disk. eapply no_panic; eassumption. Qed.
+
+  (* EXCESS. _partial: under the idealised Verify of DESIGN.md (`rs_verify_exact`: only a complete genuine set
+     verifies; refuted for the real library by C25_excess_refuted). Any damage at all: what GetOne returns is
+     the genuine data, stripped by the first readable shard's pad count; never other bytes. *)
+  Theorem C25_excess_never_wrong_partial : forall repairOn wfail disk j pad,
+    rs_verify_exact d p rs_verify ->
+    length disk = d + p -> md5_detects md5 disk -> first_pad_intact d size disk ->
+    fst (getOne repairOn wfail disk) = Ok (j, pad) -> (j, pad) = original d size.
+  Proof.
+    intros rep wf disk j pad Hx Hl Hm Hp H.
+    destruct (read_safe d p size md5 rs_verify rs_reconstruct Hd Hsize rs_ok rep wf disk j pad Hl Hm Hx H) as [-> Hf].
+    unfold original. now rewrite (Hp pad Hf).
+  Qed.
+
+  (* … and when the content of more than p shards is lost the read is an error *)
+  Theorem C25_excess_error_partial : forall repairOn wfail disk,
+    rs_verify_exact d p rs_verify ->
+    length disk = d + p -> md5_detects md5 disk -> p < data_damaged_count disk ->
+    exists e, fst (getOne repairOn wfail disk) = Err e.
+  Proof. intros rep wf disk Hx Hl Hm Hdd. exact (excess_err d p size md5 rs_verify rs_reconstruct Hd Hsize rs_ok rep wf disk Hl Hm Hx Hdd). Qed.
+
+  (* WRITE: Add of a non-empty blob succeeds iff at most p of the d+p shard writes fail … *)
+  Theorem C25_write : forall wfail disk, length disk = d + p ->
+    (fst (add d p size md5 wfail disk) = Ok tt <-> count_fail (d + p) wfail <= p).
+  Proof. intros wf disk Hl. rewrite <- Hl. apply add_ok_iff; assumption. Qed.
+
+  (* … and a blob whose Add succeeded on fresh shard files reads back exactly *)
+  Theorem C25_write_then_read : forall wfail repairOn wf2,
+    fst (add d p size md5 wfail (repeat SMissing (d + p))) = Ok tt ->
+    fst (getOne repairOn wf2 (snd (add d p size md5 wfail (repeat SMissing (d + p))))) = Ok (original d size).
+  Proof.
+    intros wf rep wf2 H. pose proof (proj1 (add_ok_iff d p size md5 Hd Hsize wf _) H) as Hc. rewrite repeat_length in Hc.
+    unfold add. destruct (size =? 0)%N eqn:E; [apply N.eqb_eq in E; lia|]. cbn [snd].
+    apply (read_ok d p size md5 rs_verify rs_reconstruct Hd Hsize rs_ok).
+    - now rewrite write_all_length, repeat_length.
+    - pose proof (write_all_damaged d size md5 Hd Hsize 0 wf (repeat SMissing (d + p))) as Hw.
+      rewrite repeat_length in Hw. unfold count_fail in Hc. lia.
+    - apply fresh_md5_detects.
+    - now apply fresh_pad_intact.
+  Qed.
+End C25.
+
+Print Assumptions C25_read_partial.
+Print Assumptions C25_no_panic.
+Print Assumptions C25_excess_never_wrong_partial.
+Print Assumptions C25_excess_error_partial.
+Print Assumptions C25_write.
+Print Assumptions C25_write_then_read.
+
+(* an empty blob is never stored: reedsolomon.Split rejects it before any shard is written (guard of C25_write) *)
+Theorem C25_write_empty : forall d p md5 wfail disk, fst (add d p 0 md5 wfail disk) = Err EShortData /\ snd (add d p 0 md5 wfail disk) = disk.
+Proof. intros. apply add_empty. Qed.
+Print Assumptions C25_write_empty.
+
+(* the stripped length is the blob length: pad count < d and d * perShard - pad = size *)
+Theorem C25_geometry : forall d size, 1 <= d -> (1 <= size)%N ->
+  (truepad d size < N.of_nat d)%N /\ (perShard d size * N.of_nat d - truepad d size = size)%N.
+Proof. intros d size Hd Hs. split; [now apply truepad_lt|now apply truepad_exact]. Qed.
+Print Assumptions C25_geometry.
+
+(* ------------------------------------------------------------------ refutations (concrete symbolic Reed–Solomon
+   c_verify / c_reconstruct, validated case by case against klauspost/reedsolomon by the harness) *)
+
+(* the full read statement is false: one flipped pad-count byte (1 <= p damaged shards), wrong length returned.
+   Reproduced on the real code: findings/C25.json `padflip-first-readable`. *)
+Theorem C25_read_refuted : exists disk,
+  length disk = 3 /\ damaged 2 9 c_md5 disk <= 1 /\ md5_detects c_md5 disk /\
+  exists j pad, fst (c_getOne 2 1 9 false disk) = Ok (j, pad) /\ (j, pad) <> original 2 9.
+Proof.
+  exists (apply_dmgs [KFlipPad 0; KGood; KGood] (repeat (good_file 2 9 c_md5) 3)).
+  split; [reflexivity|]. split; [vm_compute; lia|]. split.
+  - intros len pad sum data Hin _ Hs. cbn in Hin. destruct Hin as [H|[H|[H|[]]]]; injection H as _ _ _ <-; reflexivity.
+  - exists [DGood; DGood], 0%N. split; [vm_compute; reflexivity|]. vm_compute. discriminate.
+Qed.
+Print Assumptions C25_read_refuted.
+
+(* the full excess statement is false for a Verify that, like the library's, accepts every codeword: all three
+   shard files cut to the same length verify; their prefixes are returned as the blob.
+   Reproduced on the real code: findings/C25.json `excess-undetected-codeword`. *)
+Theorem C25_excess_refuted : exists disk,
+  length disk = 3 /\ data_damaged_count disk = 3 /\ md5_detects c_md5 disk /\ first_pad_intact 2 4099 disk /\
+  exists j pad, fst (c_getOne 2 1 4099 false disk) = Ok (j, pad) /\ (j, pad) <> original 2 4099.
+Proof.
+  exists (apply_dmgs [KTrunc 2066; KTrunc 2066; KTrunc 2066] (repeat (good_file 2 4099 c_md5) 3)).
+  split; [reflexivity|]. split; [vm_compute; reflexivity|]. split.
+  - intros len pad sum data Hin _ Hs. cbn in Hin. destruct Hin as [H|[H|[H|[]]]]; injection H as _ _ <- <-; vm_compute in Hs; discriminate.
+  - split; [intros v Hv; vm_compute in Hv; injection Hv as <-; reflexivity|].
+    exists [DTrunc 2049; DTrunc 2049], 1%N. split; [vm_compute; reflexivity|]. vm_compute. discriminate.
+Qed.
+Print Assumptions C25_excess_refuted.
+
+(* suspect S6, the code BEFORE the patch (getOne_orig): each of these held of /repo at 8351bbba *)
+Definition orig (d p : nat) (size : N) (dmg : list kdmg) :=
+  getOne_orig d size c_md5 (c_verify (d + p) (perShard d size)) (c_reconstruct d (d + p) (perShard d size))
+              (c_reconstructSome d (d + p) (perShard d size)) (apply_dmgs dmg (repeat (good_file d size c_md5) (d + p))).
+
+Theorem C25_unpatched_refuted :
+  (* a shard file shorter than its metadata: panic in the reader goroutine *)
+  orig 2 2 9 [KTrunc 5; KGood; KGood; KGood] = Panic /\
+  (* one missing + one corrupted, within parity: nil metadata indexed *)
+  orig 2 2 9 [KMissing; KFlipData; KGood; KGood] = Panic /\
+  (* one truncated shard, within parity: error *)
+  (exists e, orig 2 2 9 [KGood; KTrunc 20; KGood; KGood] = Err e).
+  (* (the fourth defect of the unpatched code, parity missing + data shard corrupted => the corrupted data is
+     returned, needs a Verify that accepts a set rebuilt from a corrupted shard; the symbolic c_verify cannot
+     express that, the harness reproduces it on the real code: corpus case 4) *)
+Proof. repeat split; try (vm_compute; reflexivity). eexists. vm_compute. reflexivity. Qed.
+Print Assumptions C25_unpatched_refuted.
+
+(* non-vacuity: the hypotheses of C25_read_partial hold of a mixed damage pattern with the concrete instance,
+   and the repaired code reads it *)
+Example C25_nonvacuous :
+  let disk := apply_dmgs [KMissing; KFlipData; KGood; KGood] (repeat (good_file 2 9 c_md5) 4) in
+  length disk = 4 /\ damaged 2 9 c_md5 disk = 2 /\ first_pad_intact 2 9 disk /\
+  fst (c_getOne 2 2 9 false disk) = Ok (original 2 9).
+Proof.
+  cbv zeta. split; [reflexivity|]. split; [vm_compute; reflexivity|]. split.
+  - intros v Hv. vm_compute in Hv. injection Hv as <-. reflexivity.
+  - vm_compute. reflexivity.
+Qed.
